@@ -13,7 +13,8 @@ PROP = "C09"
 HEADER = ("Require Import PF.Lib.PySlice PF.Lib.FloatInt PF.Model.Dataset PF.Model.Split "
           "PF.Model.DatasetRun.")
 MODEL_TARGETS = ["Model/DatasetRun.vo", "Model/Split.vo"]
-SHARD = 250
+SHARD = 100
+ALLOWED_AXIOMS = ()   # the header line "Axioms:" of Print Assumptions; the entries are PrimFloat./PrimInt63. primitives
 RULE = ("(a) histories: a Dataset of 0-12 rows (row-id feature columns, optional target, split column with an "
         "arbitrary 0/1/2 assignment incl. empty splits; RangeIndex / offset / permuted / string / duplicated / sparse "
         "labels), an optional pre-materialization phase (col_select, illegal reads and selections), materialize, then "
@@ -332,7 +333,7 @@ def gen_split_case(rng, n=None, tr=None, vr=None, it=None):
             vr = rng.randint(1, m - 1) / m
         else:
             vr = rng.randint(1, 99) / 100.0
-    return {"k": "gen", "n": n, "tr": fhex(tr), "vr": fhex(vr), "include_test": it,
+    return {"n": n, "tr": fhex(tr), "vr": fhex(vr), "include_test": it,
             "seed": rng.pick([0, 1, 42, 2 ** 32 - 1]) if rng.chance(0.3) else rng.randint(0, 2 ** 32 - 1),
             "prior": rng.randint(0, 10 ** 6)}
 
@@ -349,11 +350,14 @@ def gen_split_grid(rng):
     return out
 
 
+BATCH = 10     # split-generator points per case (keeps the number of Coq case ids small)
+
+
 def generate(rng, tier):
-    nh, ng = (800, 2200) if tier == "quick" else (25000, 40000)
+    nh, ng, batch = (800, 2200, BATCH) if tier == "quick" else (12000, 60000, 5 * BATCH)
     cases = [gen_hist(rng, tier) for _ in range(nh)]
-    cases += gen_split_grid(rng)
-    cases += [gen_split_case(rng) for _ in range(ng)]
+    pts = gen_split_grid(rng) + [gen_split_case(rng) for _ in range(ng)]
+    cases += [{"k": "gen", "pts": pts[i:i + batch]} for i in range(0, len(pts), batch)]
     if tier == "thorough":
         cases += exhaustive_small(rng)
     return cases
@@ -545,6 +549,10 @@ def run(case):
 
 
 def run_gen(case):
+    return {"pts": [run_gen_pt(pt) for pt in case["pts"]]}
+
+
+def run_gen_pt(case):
     import numpy as np
     from torch_frame.utils.split import generate_random_split
     tr, vr = float.fromhex(case["tr"]), float.fromhex(case["vr"])
@@ -698,6 +706,15 @@ def infer_perm(par, snap):
 
 
 def oracle_gen(case, obs):
+    for k, (pt, o) in enumerate(zip(case["pts"], obs["pts"])):
+        f = oracle_gen_pt(pt, o)
+        if f:
+            f["point"] = pt
+            return f
+    return None
+
+
+def oracle_gen_pt(case, obs):
     n = case["n"]
     tr, vr = float.fromhex(case["tr"]), float.fromhex(case["vr"])
     it = case["include_test"]
@@ -742,9 +759,15 @@ def oracle_gen(case, obs):
 # =========================================================================== shrinking
 def shrink(case):
     if case["k"] == "gen":
-        for n in (0, 1, 2, 3, case["n"] // 2, case["n"] - 1):
-            if 0 <= n < case["n"]:
-                yield dict(case, n=n)
+        pts = case["pts"]
+        if len(pts) > 1:
+            for pt in pts:
+                yield dict(case, pts=[pt])
+            return
+        pt = pts[0]
+        for n in (0, 1, 2, 3, pt["n"] // 2, pt["n"] - 1):
+            if 0 <= n < pt["n"]:
+                yield dict(case, pts=[dict(pt, n=n)])
         return
     prog = case["prog"]
     # drop one step (not the materialization of the root) if nothing refers to the datasets it creates
@@ -763,6 +786,15 @@ def shrink(case):
         for s in prog[k + 1:]:
             rest.append(dict(s, p=s["p"] - cnt) if s["p"] >= first_id[k] + cnt else s)
         yield dict(case, prog=prog[:k] + rest)
+    # re-parent a step onto its parent's parent (so that the intermediate step can be dropped next)
+    owner = {}
+    for k, st in enumerate(prog):
+        cnt = 3 if st["o"] == "split" else (1 if st["o"] in DERIVING else 0)
+        for j in range(cnt):
+            owner[first_id[k] + j] = k
+    for k, st in enumerate(prog):
+        if st["p"] in owner and owner[st["p"]] < k:
+            yield dict(case, prog=prog[:k] + [dict(st, p=prog[owner[st["p"]]]["p"])] + prog[k + 1:])
     n = len(case["labels"])
     if n > 1:
         for k in range(n - 1, -1, -1):
@@ -775,10 +807,9 @@ def shrink(case):
 # =========================================================================== evidence helpers
 def nontrivial_sig(case, obs):
     if case["k"] == "gen":
-        a = obs["calls"][0]
-        if case["n"] == 0 and a["ok"]:
-            return None
-        return json.dumps(["gen", case["n"], case["tr"], case["vr"], case["include_test"], case["seed"], a["ok"]])
+        sig = [[pt["n"], pt["tr"], pt["vr"], pt["include_test"], pt["seed"], o["calls"][0]["ok"]]
+               for pt, o in zip(case["pts"], obs["pts"]) if pt["n"] > 0 or not o["calls"][0]["ok"]]
+        return json.dumps(sig) if sig else None
     steps = obs.get("steps", [])
     sig, nontriv = [case["lkind"], len(case["labels"])], False
     for st, g in zip(case["prog"], steps):
@@ -795,17 +826,18 @@ def nontrivial_sig(case, obs):
 def stats(cases, obss):
     d = {"hist": 0, "gen": 0, "ops": {}, "label_kinds": {}, "n_rows": {}, "prog_len": {}, "steps_raising": 0,
          "steps_total": 0, "cases_with_empty_result": 0, "cases_with_empty_split": 0, "tree_shaped": 0,
-         "with_pre_phase": 0, "gen_rejected": 0, "gen_no_test": 0, "gen_floor_differs_from_exact": 0}
+         "with_pre_phase": 0, "gen_rejected": 0, "gen_no_test": 0, "gen_floor_differs_from_exact": 0}   # gen* count split-generator points
     for c, o in zip(cases, obss):
         if c is None or o is None:
             continue
         if c["k"] == "gen":
-            d["gen"] += 1
-            d["gen_rejected"] += 0 if o.get("calls", [{}])[0].get("ok") else 1
-            d["gen_no_test"] += 0 if c["include_test"] else 1
-            tr = float.fromhex(c["tr"])
-            if tr > 0 and ref_floor(float(c["n"]) * tr) != (Fraction(tr) * c["n"]).__floor__():
-                d["gen_floor_differs_from_exact"] += 1
+            for pt, po in zip(c["pts"], o.get("pts", [])):
+                d["gen"] += 1
+                d["gen_rejected"] += 0 if po["calls"][0].get("ok") else 1
+                d["gen_no_test"] += 0 if pt["include_test"] else 1
+                tr = float.fromhex(pt["tr"])
+                if tr > 0 and ref_floor(float(pt["n"]) * tr) != (Fraction(tr) * pt["n"]).__floor__():
+                    d["gen_floor_differs_from_exact"] += 1
             continue
         d["hist"] += 1
         d["label_kinds"][c["lkind"]] = d["label_kinds"].get(c["lkind"], 0) + 1
@@ -953,6 +985,12 @@ def infer_perm_from_obs(case, obs, st, g):
 
 
 def coq_term_gen(case, obs):
+    ts = [coq_term_gen_pt(pt, o) for pt, o in zip(case["pts"], obs["pts"])]
+    ts = [t for t in ts if t is not None]
+    return "(" + " && ".join(ts) + ")" if ts else None
+
+
+def coq_term_gen_pt(case, obs):
     a = obs["calls"][0]
     exp = C.copt(a["arr"], lambda l: C.clist(l, C.cz)) if a["ok"] else "None"
     if a["ok"] and (a["ndim"] != 1):
